@@ -535,10 +535,11 @@ func TestVerif_C08(t *testing.T) {
 		// Ordered so that a time-capped run has seen every op in every configuration at
 		// depth 3 before anything is deepened (transition counts: see evidence notes).
 		add(lru, "full", c08AlphaFull, 3, onlyPresent, c08SweepBlocks)
+		add(lru, "user", c08AlphaUser, 4, onlyPresent, c08SweepBlocks)
 		add(lru, "full", c08AlphaFull, 3, onlyPresent, c08SweepAlways)
 		add(off, "full", c08AlphaFull, 3, onlyPresent, c08SweepEnd)
 		add(lru, "full", c08AlphaFull, 3, []bool{false}, c08SweepBlocks)
-		add(lru, "user", c08AlphaUser, 4, both, c08SweepBlocks)
+		add(lru, "user", c08AlphaUser, 4, []bool{false}, c08SweepBlocks)
 		add(lru, "owner", c08AlphaOwner, 4, both, c08SweepBlocks)
 		add(lru, "user-nopay", c08AlphaUserNoPay, 5, both, c08SweepBlocks)
 		add(lru, "owner", c08AlphaOwner, 5, onlyPresent, c08SweepBlocks)
